@@ -5,6 +5,7 @@ import warnings
 import torch
 
 from linear_operator import settings
+from linear_operator.utils import _verif
 from linear_operator.utils.errors import NanError, NotPSDError
 from linear_operator.utils.warnings import NumericalWarning
 
@@ -18,6 +19,8 @@ def _psd_safe_cholesky(A, out=None, jitter=None, max_tries=None):
         out = (out, torch.empty(A.shape[:-2], dtype=torch.int32, device=out.device))
 
     L, info = torch.linalg.cholesky_ex(A, out=out)
+    if _verif.ENABLED:
+        _verif.emit("chol.try", i=-1, jitter=0.0, info=info, shape=A.shape)
     if settings.trace_mode.on() or not torch.any(info):
         return L
 
@@ -42,6 +45,8 @@ def _psd_safe_cholesky(A, out=None, jitter=None, max_tries=None):
             NumericalWarning,
         )
         L, info = torch.linalg.cholesky_ex(Aprime, out=out)
+        if _verif.ENABLED:
+            _verif.emit("chol.try", i=i, jitter=jitter_new, info=info, shape=A.shape, max_tries=max_tries)
         if not torch.any(info):
             return L
     raise NotPSDError(f"Matrix not positive definite after repeatedly adding jitter up to {jitter_new:.1e}.")
